@@ -182,3 +182,60 @@ pub fn replay<S: Subject>(s: &mut S, choices: &[u8]) -> Option<String> {
 pub fn cfg_value<T: serde::Serialize>(t: &T) -> Value {
     serde_json::to_value(t).unwrap()
 }
+
+/// Breadth-first search over CANONICAL states of the implementation (requires `Subject::key`).
+/// A state is re-materialised by replaying its witness history from `reset`. First visits happen
+/// at minimal depth, so bounded BFS with de-duplication is sound: a state is expanded once, with
+/// the largest remaining depth. Every transition is still executed on the real code and checked
+/// by the step oracle. Returns false if cut short by a violation.
+pub fn bfs<S: Subject>(s: &mut S, cfg: &Value, max_depth: usize, max_states: usize, stats: &mut Stats) -> bool {
+    use std::collections::{HashSet, VecDeque};
+    let cfg_hash = hash64(&cfg.to_string());
+    stats.configs += 1;
+    let mut seen: HashSet<u64> = HashSet::new();
+    let mut frontier: VecDeque<Vec<u8>> = VecDeque::new();
+    frontier.push_back(vec![]);
+    let mut max_seen_depth = 0;
+    let mut fixpoint = true;
+    while let Some(prefix) = frontier.pop_front() {
+        let x = run_one(s, &prefix, prefix.len(), cfg_hash, stats, false);
+        if let Some(why) = x.fail {
+            let labels = labels_of(s, &x.choices, prefix.len());
+            let sig = s.sig(&why);
+            stats.violations.push(Violation { sig, config: cfg.clone(), trace: json!({"choices": x.choices, "ops": labels, "search": "bfs"}), why });
+            if x.panicked {
+                stats.need_restart = true;
+            }
+            return false;
+        }
+        let k = s.key().expect("bfs needs Subject::key");
+        if !seen.insert(k) {
+            continue;
+        }
+        if s.nontrivial() {
+            stats.nontrivial += 1;
+        }
+        max_seen_depth = max_seen_depth.max(prefix.len());
+        if seen.len() >= max_states {
+            stats.caps_hit.push(format!("bfs: {} canonical states reached for {}", max_states, cfg));
+            fixpoint = false;
+            break;
+        }
+        if prefix.len() >= max_depth {
+            fixpoint = false;
+            continue;
+        }
+        let n = s.enabled().len();
+        for i in 0..n {
+            let mut p = prefix.clone();
+            p.push(i as u8);
+            frontier.push_back(p);
+        }
+    }
+    stats.bump("bfs_canonical_states", seen.len() as u64);
+    stats.bump("bfs_configurations_at_fixpoint", fixpoint as u64);
+    stats.bump("bfs_max_depth_reached", 0);
+    let e = stats.extra.entry("bfs_max_depth_reached".into()).or_insert(0);
+    *e = (*e).max(max_seen_depth as u64);
+    true
+}
